@@ -2,5 +2,5 @@ SPECIFICATION Spec
 CONSTANTS
   Configs <- ConfigsDef
   HeaderFirst = FALSE
-INVARIANT CrashSafe
+INVARIANTS CrashSafe OccupiedUntouched
 CHECK_DEADLOCK FALSE
